@@ -178,8 +178,16 @@ def adjust(ctx, tpaths):
       tests = [U.compare_nf(t, pol) for (t, pol) in U.enclosing_tests(fi.node, st, stop_at=loop)]
       skips.append(tests)
   ok = len(skips) >= 1 and all(any(c is not None and c[1] == '==' and {c[0], c[2]} == {'start_time', 'end_time'} for c in tests) for tests in skips)
-  ctx.ob('ADJUST/skip', fi, loop, ok, 'notes are skipped only under start_time == end_time' if ok else
-         'a note is skipped under a condition other than zero adjusted length: %s' % skips, construct='adjust: only zero-length notes are skipped')
+  # positively located: a note is skipped under an *approximate* equality of the mapped start and end
+  approx = [c for st in U.walk_stmts(loop) if isinstance(st, ast.Continue) for (t, pol) in U.enclosing_tests(fi.node, st, stop_at=loop)
+            for c in ast.walk(t) if isinstance(c, ast.Call) and (dotted(c.func) or '').split('.')[-1] in ('isclose', 'allclose') and
+            {norm_text(a) for a in c.args[:2]} == {'start_time', 'end_time'}]
+  if approx and not ok:
+    ctx.ob('ADJUST/skip', fi, approx[0], False, 'a note is dropped when %s: only notes collapsed to *zero* length may be dropped; a short note whose mapped start and end are merely close '
+           '(within the tolerance of isclose, which grows with the time) disappears' % norm_text(approx[0]), construct='adjust: collapsed notes skipped', definite=True)
+  else:
+    ctx.ob('ADJUST/skip', fi, loop, ok, 'notes are skipped only under start_time == end_time' if ok else
+           'a note is skipped under a condition other than zero adjusted length: %s' % skips, construct='adjust: only zero-length notes are skipped')
   classes = set()
   for st in U.walk_stmts(fi.node):
     if isinstance(st, ast.Raise) and st.exc is not None:
